@@ -5,6 +5,7 @@ import (
 	"bytes"
 	"encoding/json"
 	"fmt"
+	"github.com/fullstorydev/emulators/storage/gcsemu"
 	"io"
 	"math/rand"
 	"mime"
@@ -14,6 +15,7 @@ import (
 	"net/textproto"
 	"os"
 	"os/exec"
+	"path/filepath"
 	"strings"
 	"sync"
 	"time"
@@ -169,6 +171,48 @@ func c20Requests(rng *rand.Rand, n int) []rawReq {
 	return out
 }
 
+// c20Directed: well-formed multipart and resumable uploads whose object NAME is degenerate (empty,
+// missing, dots, a directory of the store, a path through a stored file, a sidecar's file name, NUL,
+// over-long): whatever the answer, the seeded objects must survive and valid requests must still work.
+func c20Directed() []rawReq {
+	names := []string{`""`, `null`, `"/"`, `"."`, `".."`, `"../x"`, `"a/../../x"`, `"../other-bucket/z"`, `"a/../../other-bucket/z"`, `"keep//a.txt"`, `"keep"`, `"keep/"`, `"keep/a.txt/sub"`, `"keep/a.txt.emumeta"`, `"\u0000"`, `"` + strings.Repeat("n", 300) + `"`, `"` + strings.Repeat("d/", 200) + `x"`}
+	var out []rawReq
+	for ni, nm := range names {
+		meta := `{"name":` + nm + `,"contentType":"t/x"}`
+		if nm == "null" {
+			meta = `{"contentType":"t/x"}`
+		}
+		bnd, mp := multipartBody([2]string{"application/json", meta}, [2]string{"text/plain", "payload"})
+		// once into the seeded bucket and once into a bucket that does not exist yet (the stores create
+		// buckets on first use)
+		for _, bk := range []string{"bkt", fmt.Sprintf("fresh-%d", ni)} {
+			out = append(out,
+				rawReq{Method: "POST", URL: "http://emu/upload/storage/v1/b/" + bk + "/o?uploadType=multipart", Headers: map[string]string{"Content-Type": "multipart/related; boundary=" + bnd}, Body: mp},
+				rawReq{Method: "POST", URL: "http://emu/upload/storage/v1/b/" + bk + "/o?uploadType=resumable", Headers: map[string]string{"Content-Type": "application/json"}, Body: []byte(meta)},
+				// a valid request afterwards: the store must still take and serve an ordinary object
+				rawReq{Method: "POST", URL: "http://emu/upload/storage/v1/b/" + bk + "/o?uploadType=media&name=after-degenerate", Headers: map[string]string{"Content-Type": "text/plain"}, Body: []byte("still works")},
+				rawReq{Method: "GET", URL: "http://emu/storage/v1/b/" + bk + "/o/after-degenerate?alt=media"})
+		}
+	}
+	// bucket names that are not one plain path segment, and a copy whose destination bucket is a path
+	// into another bucket
+	for _, bn := range []string{`""`, `"."`, `".."`, `"../escaped-bucket"`, `"../../escaped-bucket2"`, `"bkt/keep"`, `"x/y"`} {
+		out = append(out,
+			rawReq{Method: "POST", URL: "http://emu/storage/v1/b", Headers: map[string]string{"Content-Type": "application/json"}, Body: []byte(`{"name":` + bn + `}`)},
+			rawReq{Method: "GET", URL: "http://emu/storage/v1/b/bkt/o"},
+			rawReq{Method: "POST", URL: "http://emu/upload/storage/v1/b/bkt/o?uploadType=media&name=after-degenerate", Headers: map[string]string{"Content-Type": "text/plain"}, Body: []byte("still works")},
+			rawReq{Method: "GET", URL: "http://emu/storage/v1/b/bkt/o/after-degenerate?alt=media"})
+	}
+	for _, dst := range []string{"bkt/keep/o/a.txt", "../escaped-bucket3/o/x", "./o/x", "bkt/o/keep/../keep/b.bin"} {
+		out = append(out,
+			rawReq{Method: "POST", URL: "http://emu/storage/v1/b/other-bucket/o/z/rewriteTo/b/" + dst},
+			rawReq{Method: "GET", URL: "http://emu/storage/v1/b/bkt/o"},
+			rawReq{Method: "POST", URL: "http://emu/upload/storage/v1/b/bkt/o?uploadType=media&name=after-degenerate", Headers: map[string]string{"Content-Type": "text/plain"}, Body: []byte("still works")},
+			rawReq{Method: "GET", URL: "http://emu/storage/v1/b/bkt/o/after-degenerate?alt=media"})
+	}
+	return out
+}
+
 // batchOf wraps requests as parts of one batch request (optionally damaged)
 func batchOf(parts []rawReq, damage int) rawReq {
 	var buf bytes.Buffer
@@ -251,12 +295,28 @@ func genC20(out, tier string, rng *rand.Rand) {
 		n = 60000
 	}
 	reqs := c20Requests(rng, n)
+	directed := c20Directed()
 	var mu sync.Mutex
 	var all []rawCase
 	nworkers := 16
 	parallel(nworkers*2, func(w int) {
 		mk := stores()[w%2]
 		st, cleanup := mk.mk()
+		outer := ""
+		if w == 1 {
+			// the file store that takes the directed requests lives in a directory of its own inside a
+			// fresh directory, so that anything it writes outside its root shows up next to it
+			cleanup()
+			d, err := os.MkdirTemp(tmpRoot, "outer")
+			if err != nil {
+				panic(err)
+			}
+			outer = filepath.Join(d, "l1", "l2")
+			if err := os.MkdirAll(filepath.Join(outer, "store"), 0o777); err != nil {
+				panic(err)
+			}
+			st, cleanup = gcsemu.NewFileStore(filepath.Join(outer, "store")), func() { _ = os.RemoveAll(d) }
+		}
 		defer cleanup()
 		e := NewEmu(st)
 		for _, s := range c20Seeds {
@@ -283,6 +343,39 @@ func genC20(out, tier string, rng *rand.Rand) {
 				mine = append(mine, bc)
 			}
 		}
+		if w < 2 {
+			// the directed degenerate-name uploads, in order, once per store; the two follow-up requests
+			// of each group must succeed
+			cur := before
+			for i, r := range directed {
+				c := judge(e, r, cur)
+				c.Store = mk.name
+				if after := c20Probe(e); after != cur {
+					// damage is charged to the request that caused it: re-seed before the next one
+					for _, s := range c20Seeds {
+						e.Exec(s)
+					}
+					cur = c20Probe(e)
+				}
+				if i%4 >= 2 && c.Panic == "" && c.St != 200 {
+					c.Notes = append(c.Notes, fmt.Sprintf("a valid request after an upload with a degenerate object name is answered %d", c.St))
+				}
+				mine = append(mine, c)
+			}
+			if outer != "" {
+				var strays []string
+				_ = filepath.Walk(filepath.Dir(filepath.Dir(outer)), func(p string, info os.FileInfo, err error) error {
+					if err == nil && !strings.HasPrefix(p, filepath.Join(outer, "store")) && !strings.HasPrefix(filepath.Join(outer, "store"), p) {
+						strays = append(strays, strings.TrimPrefix(p, filepath.Dir(filepath.Dir(outer))))
+					}
+					return nil
+				})
+				if len(strays) > 0 && len(mine) > 0 {
+					last := &mine[len(mine)-1]
+					last.Notes = append(last.Notes, fmt.Sprintf("the file store wrote outside its directory: %v", strays))
+				}
+			}
+		}
 		mu.Lock()
 		all = append(all, mine...)
 		mu.Unlock()
@@ -291,11 +384,11 @@ func genC20(out, tier string, rng *rand.Rand) {
 	for _, c := range all {
 		pc := Case{Store: c.Store, Tag: "http-perturbation", Prog: []Req{{Kind: c.Req.Method}}, Obs: []Resp{{Status: c.St, Kind: "none", Notes: c.Notes, Panic: c.Panic}}}
 		js, _ := json.Marshal(struct {
-			Store string   `json:"store"`
-			Tag   string   `json:"tag"`
-			Raw   rawReq   `json:"raw"`
-			Prog  []Req    `json:"prog"`
-			Obs   []Resp   `json:"obs"`
+			Store string `json:"store"`
+			Tag   string `json:"tag"`
+			Raw   rawReq `json:"raw"`
+			Prog  []Req  `json:"prog"`
+			Obs   []Resp `json:"obs"`
 		}{c.Store, "http-perturbation", c.Req, pc.Prog, pc.Obs})
 		sink.AddOracleOnly(pc, string(js), js, c.St >= 400 || c.St == 200)
 	}
